@@ -184,6 +184,10 @@ RECURSIVE Str(_)
 Str(s) == IF s = <<>> THEN "" ELSE s[1] \o Str(Tail(s))
 PStr(p) == Str(Flat(p))
 
+\* Where the package directory lives and what it is called is irrelevant to the law.  The harness gives the directory of
+\* some trees a name containing glob metacharacters ("meta"), of the others a plain one.
+Home == IF h % 5 = 2 THEN "meta" ELSE "plain"
+
 TreeOut == LET s == SetToSortSeq(tree, LAMBDA x, y : IdxLess(x.p, y.p))
            IN [i \in 1..Len(s) |-> [p |-> PStr(NamePath(s[i].p)), k |-> s[i].k]]
 
@@ -206,6 +210,7 @@ Judge == Selected =>
       FSStrs(s) == [i \in 1..Len(s) |-> IF s[i].dir THEN PStr(s[i].p) \o "/" ELSE PStr(s[i].p)]
   IN /\ Laws(fs, r1)
      /\ PrintT(ToJson([t     |-> TreeOut,
+                       home  |-> Home,
                        files |-> [i \in 1..Len(files) |-> PStr(files[i])],
                        one   |-> [i \in 1..NP |-> Out(r1[i], Code(r1[i].e))],
                        two   |-> [k \in 1..NQ * NQ |-> LET r == Combine(<<r1[Pairs[k][1]], r1[Pairs[k][2]]>>) IN Out(r, Code(r.e[1]) \o Code(r.e[2]))],
